@@ -61,7 +61,15 @@ def _initialize_window_functions():
 
         if not ("M" in sig.parameters and "sym" in sig.parameters):
             continue
-        elif len(sig.parameters) > 2:
+        elif any(
+            (
+                key not in ("M", "sym")
+                and parameter.kind is not parameter.KEYWORD_ONLY
+                for key, parameter in sig.parameters.items()
+            )
+        ):
+            # Newer versions of SciPy have added keyword-only parameters
+            # (e.g., 'xp' and 'device') to all window functions.
             continue
 
         _WINDOW_FUNCTIONS[name] = func
